@@ -2,7 +2,7 @@
    combined into the save/reload statements; instantiation of the tree theorems. *)
 From Coq Require Import List NArith ZArith Bool Lia ZifyBool Arith.
 Import ListNotations.
-Require Import Base.Wire Base.PyStr C15.Model C15.Lemmas C15.Names C15.Codec C15.File C15.Tree.
+Require Import Base.Wire Base.PyStr C15.Model C15.Lemmas C15.Names C15.Codec C15.Split C15.File C15.Tree.
 Open Scope N_scope.
 
 Lemma codec_v : forall s, vstr s = true -> udec (uesc s) = Ok s.
@@ -10,8 +10,12 @@ Proof. exact udec_uesc. Qed.
 Lemma evalrepr_v : forall s, vstr s = true -> py_eval (py_repr s) = Ok s.
 Proof. exact py_eval_repr. Qed.
 
-Lemma name_roundtrip_on_domain : forall ns, names_dom ns = true -> split (join_names ns) = Ok ns.
-Proof. exact (split_join_on_domain codec_v). Qed.
+Lemma name_roundtrip : forall ns, ns <> [] -> Forall (fun n => vstr n = true) ns -> split (join_names ns) = Ok ns.
+Proof. exact (split_join codec_v). Qed.
+
+(* the empty list is not a name: join gives the empty text, which splits into one empty name *)
+Example name_roundtrip_empty : split (join_names []) = Ok [[]].
+Proof. vm_compute. reflexivity. Qed.
 
 Definition reload_ok := reload_transparent codec_v uesc_no_crlf uesc_trailing_bsl_even.
 
@@ -79,6 +83,45 @@ Lemma integer_reload : forall name lo fresh oks z,
 Proof.
   intros name lo fresh oks z Hn Ho Ha. rewrite reload_ok; [|exact Hn|cbn [str_of]; apply vstr_Z_str].
   apply int_roundtrip; assumption.
+Qed.
+
+(* space separated lists of strings: the lists of non-empty blank-free elements survive save/reload,
+   and that is everything .set() can store *)
+Lemma spacelist_reload : forall name fresh oks l,
+  name_ok name = true -> forallb (fun b : bool => b) oks = true ->
+  forallb tok_ok l = true -> forallb vstr l = true ->
+  reload name (KSpaceList false) fresh oks (PL l) = Ok (PL l).
+Proof.
+  intros name fresh oks l Hn Ho Hl Hv. rewrite reload_ok; [|exact Hn|].
+  - apply spacelist_roundtrip_iff; assumption.
+  - cbn [str_of]. destruct l; [reflexivity|]. apply vstr_join_sp. exact Hv.
+Qed.
+
+Lemma spacelist_set_reload : forall name fresh cur oks s,
+  name_ok name = true -> forallb (fun b : bool => b) oks = true -> vstr s = true ->
+  exists l, set_text (KSpaceList false) cur oks s = Ok (PL l) /\
+            reload name (KSpaceList false) fresh oks (PL l) = Ok (PL l).
+Proof.
+  intros name fresh cur oks s Hn Ho Hs. exists (split_ws s). split; [apply spacelist_set; exact Ho|].
+  apply spacelist_reload; [exact Hn|exact Ho|apply split_ws_tokens_ok|apply split_ws_vstr; exact Hs].
+Qed.
+
+Lemma spacelist_value_safe_iff : forall dflt l,
+  safe pv (k_reparse (KSpaceList false) dflt) (PL l) <-> forallb tok_ok l = true.
+Proof.
+  intros dflt l. unfold safe, k_reparse. apply spacelist_roundtrip_iff. vm_compute. reflexivity.
+Qed.
+
+(* the hypothesis of the tree theorems is exact: a general value that str()/set() does not reproduce
+   already breaks getSpecific for a channel never seen before *)
+Lemma specific_safe_necessary :
+  forall (V : Type) (reparse : V -> res V) (settext : V -> str -> res V) (v : V) (c : str),
+  reparse v <> Ok v ->
+  snd (step V reparse settext (mktree V v [] []) (OGet (AC c))) <> Ok (resolve V (mkspec V v [] [] []) (AC c)).
+Proof.
+  intros V reparse settext v c H. cbn. destruct (reparse v) as [w|e] eqn:E; cbn.
+  - intro K. inversion K. subst w. apply H. reflexivity.
+  - discriminate.
 Qed.
 
 (* round-trip safe values never disturb the tree: String values of the domain, booleans, integers *)
